@@ -9,9 +9,11 @@ BATCH = 60
 BUDGET_S = {'quick': 80, 'thorough': 1200}
 RULE = ('1..4 probes with different channel counts (>= 2) and template counts (>= 2), permuted channel '
         'maps, non-negative coordinates (incl. probes whose channels share one x), index tables of '
-        'int32/int64/uint32, whitening / similarity matrices in all or only some probes; every template '
-        'cell is a distinct token. One case = one real Merger.merge(). non-trivial = >= 2 probes (>= 3 '
-        'probes of different sizes are forced in the first cases)')
+        'int32/int64/uint32, whitening / inverse whitening / similarity matrices in all, some or none of the probes '
+        '(written or skipped as Lean mergeOptional decides); every template cell is a distinct token. One case = one '
+        'real Merger.merge(), also run through the Lean file-system model of the whole merge; every fourth case uses '
+        'a Merger / process that has merged before. non-trivial = >= 2 probes (>= 3 probes of different sizes are '
+        'forced in the first cases)')
 ASSUMPTIONS = ['np.save/np.load are transport; scipy.linalg.block_diag is modelled by a list definition',
                'pc_feature_ind.npy and template_feature_ind.npy are present in every probe (Merger requires them)']
 
@@ -123,6 +125,9 @@ def judge(case, impl_res, ans):
     if m['params'] is None or [int(round(float(ok['params'].get('sample_rate')) * F.RATE_SCALE)),
                                ok['params'].get('n_channels_dat')] != m['params']:
         return 'SPEC: merged params do not keep the sampling rate / declare the summed raw channel count'
+    mm = ok['model']
+    if mm['n_templates'] != sum(nts) or mm['n_channels'] != sum(ncs) or mm['channel_probes'] != m['channel_probe']:
+        return 'SPEC: the TemplateModel returned by merge() does not show the merged templates / channels / probe labels'
     if [[int(round(x)), int(round(y))] for x, y in pos] != m['positions']:
         return 'CORR: merged positions differ from the model'
     # the merge as a function on directories (Lean C11.merge): files created, contents of the channel/template files
